@@ -56,7 +56,7 @@ Qed.
 
 End Laws.
 
-Ltac eqb_case x y := destruct (N.eqb_spec x y) as [?|?]; [subst|].
+Ltac eqb_case x y := destruct (N.eqb_spec x y) as [?Heq|?Hne]; [subst x|].
 
 (* ------------------------------------------------------------------ *)
 (* PrefixTree0                                                          *)
@@ -179,7 +179,7 @@ Proof.
   apply invL_iff in Hi. destruct Hi as (Hm & Hp).
   rewrite (In_iter_lvl m _ Hm). cbn [ops_lvl o_contains]. split.
   - destruct (get el0 m) as [tree|] eqn:Hg; [|discriminate]. intros Hc.
-    exists el0, rest, tree. split; [reflexivity|]. split; [reflexivity|].
+    exists el0, rest, tree. split; [reflexivity|]. split; [exact Hg|].
     apply (s_contains tree rest); [apply (Hp el0 tree Hg)|exact Hx|exact Hc].
   - intros (k & r & v & [= <- <-] & Hg & Hr). rewrite Hg.
     apply (s_contains v rest); [apply (Hp el0 v Hg)|exact Hx|exact Hr].
@@ -223,7 +223,7 @@ Proof.
     + injection Hgw as <-. apply Hv'm in Hr. destruct Hr as [->|Hr]; [left; reflexivity|].
       right. exists el0, r, v. split; [reflexivity|]. split; [exact (Hslice r Hr)|exact Hr].
     + right. exists k', r, w. auto.
-  - intros [[= -> ->]|(k' & r & w & -> & Hgw & Hr)].
+  - intros [->|(k' & r & w & -> & Hgw & Hr)].
     + exists el0, rest, v'. split; [reflexivity|]. split; [rewrite Hget, N.eqb_refl; reflexivity|].
       apply Hv'm. left; reflexivity.
     + eqb_case k' el0.
@@ -231,6 +231,395 @@ Proof.
         apply Hv'm. right. rewrite Hv, Hgw. exact Hr.
       * exists k', r, w. split; [reflexivity|]. split; [|exact Hr].
         rewrite Hget. destruct (N.eqb_spec k' el0); [contradiction|exact Hgw].
+Qed.
+
+Lemma lvl_remove m x :
+  invL m -> length x = S a ->
+  exists m', o_remove lvl m x = Some (m', o_contains lvl m x) /\ invL m' /\
+             forall y, In y (o_iter lvl m') <-> y <> x /\ In y (o_iter lvl m).
+Proof.
+  intros Hi Hx. destruct x as [|el0 rest]; [discriminate|]. injection Hx as Hx.
+  pose proof Hi as Hi0. apply invL_iff in Hi. destruct Hi as (Hm & Hp).
+  cbn [ops_lvl o_remove o_contains].
+  destruct (get el0 m) as [tree|] eqn:Hg.
+  - rewrite (entry_of_some el0 m tree Hg). cbv beta iota zeta.
+    rewrite (occ_get_mut_some el0 m tree Hg). cbv beta iota zeta.
+    destruct (Hp el0 tree Hg) as (Hti & Hte).
+    destruct (s_remove tree rest Hti Hx) as (tree' & -> & Ht'i & Ht'm).
+    destruct (modify_set_get el0 tree tree' m Hm Hg) as (Hm2 & Hget2).
+    destruct (o_is_empty sub tree') eqn:He.
+    + assert (Hg2 : get el0 (modify el0 (fun _ => tree') m) = Some tree')
+        by (rewrite Hget2, N.eqb_refl; reflexivity).
+      destruct (occ_remove_get el0 _ tree' Hm2 Hg2) as (m3 & -> & Hm3 & Hg3).
+      assert (Hget3 : forall k', get k' m3 = if k' =? el0 then None else get k' m).
+      { intros k'. rewrite Hg3, Hget2. destruct (k' =? el0); reflexivity. }
+      apply (s_is_empty tree' Ht'i) in He.
+      exists m3. split; [reflexivity|]. split.
+      { apply invL_iff. split; [exact Hm3|]. intros k' w. rewrite Hget3.
+        destruct (k' =? el0); [discriminate|apply Hp]. }
+      intros y. rewrite (In_iter_lvl m3 y Hm3), (In_iter_lvl m y Hm). split.
+      * intros (k' & r & w & -> & Hgw & Hr). rewrite Hget3 in Hgw.
+        destruct (N.eqb_spec k' el0) as [Heq|Hne]; [discriminate|].
+        split; [intros [= E _]; contradiction|exists k', r, w; auto].
+      * intros (Hne & k' & r & w & -> & Hgw & Hr). destruct (N.eqb_spec k' el0) as [Heq|Hne'].
+        -- exfalso. subst k'. rewrite Hg in Hgw. injection Hgw as <-.
+           assert (Hin : In r (tv tree')).
+           { apply Ht'm. split; [intros ->; apply Hne; reflexivity|exact Hr]. }
+           rewrite He in Hin. destruct Hin.
+        -- exists k', r, w. split; [reflexivity|]. split; [|exact Hr].
+           rewrite Hget3. destruct (N.eqb_spec k' el0); [contradiction|exact Hgw].
+    + exists (modify el0 (fun _ => tree') m). split; [reflexivity|]. split.
+      { apply invL_iff. split; [exact Hm2|]. intros k' w. rewrite Hget2.
+        destruct (N.eqb_spec k' el0) as [Heq|Hne].
+        - intros [= <-]. split; assumption.
+        - apply Hp. }
+      intros y. rewrite (In_iter_lvl _ y Hm2), (In_iter_lvl m y Hm). split.
+      * intros (k' & r & w & -> & Hgw & Hr). rewrite Hget2 in Hgw.
+        destruct (N.eqb_spec k' el0) as [Heq|Hne].
+        -- subst k'. injection Hgw as <-. apply Ht'm in Hr. destruct Hr as (Hne & Hr).
+           split; [intros [= E]; contradiction|exists el0, r, tree; auto].
+        -- split; [intros [= E _]; contradiction|exists k', r, w; auto].
+      * intros (Hne & k' & r & w & -> & Hgw & Hr). destruct (N.eqb_spec k' el0) as [Heq|Hne'].
+        -- subst k'. rewrite Hg in Hgw. injection Hgw as <-.
+           exists el0, r, tree'. split; [reflexivity|].
+           split; [rewrite Hget2, N.eqb_refl; reflexivity|].
+           apply Ht'm. split; [intros ->; apply Hne; reflexivity|exact Hr].
+        -- exists k', r, w. split; [reflexivity|]. split; [|exact Hr].
+           rewrite Hget2. destruct (N.eqb_spec k' el0); [contradiction|exact Hgw].
+  - rewrite (entry_of_none el0 m Hg). exists m. split; [reflexivity|]. split; [exact Hi0|].
+    intros y. split; [|tauto]. intros Hy. split; [|exact Hy]. intros ->.
+    apply (In_iter_lvl m _ Hm) in Hy. destruct Hy as (k & r & v & [= <- <-] & Hgv & _). congruence.
+Qed.
+
+Lemma lvl_clear m : invL (o_clear lvl m) /\ o_iter lvl (o_clear lvl m) = [].
+Proof. split; [apply lvl_new_inv|reflexivity]. Qed.
+
+Lemma lvl_union m1 m2 :
+  invL m1 -> invL m2 ->
+  invL (o_union lvl m1 m2) /\
+  forall y, In y (o_iter lvl (o_union lvl m1 m2)) <-> In y (o_iter lvl m1) \/ In y (o_iter lvl m2).
+Proof.
+  intros H1 H2. apply invL_iff in H1, H2. destruct H1 as (Hm1 & Hp1). destruct H2 as (Hm2 & Hp2).
+  change (o_union lvl m1 m2) with (union_tot (fun _ val1 val2 => o_union sub val1 val2) m1 m2).
+  destruct (union_tot_get (fun _ val1 val2 => o_union sub val1 val2) m1 m2 Hm1 Hm2) as (Hm & Hg).
+  split.
+  - apply invL_iff. split; [exact Hm|]. intros k v. rewrite Hg. unfold union_law.
+    destruct (get k m1) as [x1|] eqn:E1; destruct (get k m2) as [x2|] eqn:E2.
+    + intros [= <-]. destruct (Hp1 k x1 E1) as (I1 & N1). destruct (Hp2 k x2 E2) as (I2 & N2).
+      destruct (s_union x1 x2 I1 I2) as (Iu & Mu). split; [exact Iu|].
+      apply (s_nonempty _ I1) in N1. destruct (tv x1) as [|r l] eqn:Er; [congruence|].
+      apply (s_nonempty_of_In _ r Iu). apply Mu. left. left; reflexivity.
+    + intros [= <-]. apply (Hp1 k x1 E1).
+    + intros [= <-]. apply (Hp2 k x2 E2).
+    + discriminate.
+  - intros y. rewrite (In_iter_lvl _ y Hm), (In_iter_lvl m1 y Hm1), (In_iter_lvl m2 y Hm2). split.
+    + intros (k & r & v & -> & Hgv & Hr). rewrite Hg in Hgv. unfold union_law in Hgv.
+      destruct (get k m1) as [x1|] eqn:E1; destruct (get k m2) as [x2|] eqn:E2.
+      * injection Hgv as <-. destruct (Hp1 k x1 E1) as (I1 & _). destruct (Hp2 k x2 E2) as (I2 & _).
+        destruct (s_union x1 x2 I1 I2) as (_ & Mu). apply Mu in Hr.
+        destruct Hr as [Hr|Hr]; [left; exists k, r, x1|right; exists k, r, x2]; auto.
+      * injection Hgv as <-. left. exists k, r, x1. auto.
+      * injection Hgv as <-. right. exists k, r, x2. auto.
+      * discriminate.
+    + intros [(k & r & v & -> & Hgv & Hr)|(k & r & v & -> & Hgv & Hr)].
+      * destruct (get k m2) as [x2|] eqn:E2.
+        -- exists k, r, (o_union sub v x2). split; [reflexivity|].
+           split; [rewrite Hg, Hgv, E2; reflexivity|].
+           destruct (Hp1 k v Hgv) as (I1 & _). destruct (Hp2 k x2 E2) as (I2 & _).
+           apply (s_union v x2 I1 I2). left; exact Hr.
+        -- exists k, r, v. split; [reflexivity|]. split; [rewrite Hg, Hgv, E2; reflexivity|exact Hr].
+      * destruct (get k m1) as [x1|] eqn:E1.
+        -- exists k, r, (o_union sub x1 v). split; [reflexivity|].
+           split; [rewrite Hg, Hgv, E1; reflexivity|].
+           destruct (Hp1 k x1 E1) as (I1 & _). destruct (Hp2 k v Hgv) as (I2 & _).
+           apply (s_union x1 v I1 I2). right; exact Hr.
+        -- exists k, r, v. split; [reflexivity|]. split; [rewrite Hg, Hgv, E1; reflexivity|exact Hr].
+Qed.
+
+Definition diff_cb (_ : N) (val1 val2 : V) : option V :=
+  let diff_result := o_difference sub val1 val2 in
+  if o_is_empty sub diff_result then None else Some diff_result.
+
+Lemma lvl_difference m1 m2 :
+  invL m1 -> invL m2 ->
+  invL (o_difference lvl m1 m2) /\
+  forall y, In y (o_iter lvl (o_difference lvl m1 m2)) <->
+            In y (o_iter lvl m1) /\ ~ In y (o_iter lvl m2).
+Proof.
+  intros H1 H2. apply invL_iff in H1, H2. destruct H1 as (Hm1 & Hp1). destruct H2 as (Hm2 & Hp2).
+  change (o_difference lvl m1 m2) with (difference_tot diff_cb m1 m2).
+  destruct (difference_tot_get diff_cb m1 m2 Hm1 Hm2) as (Hm & Hg).
+  split.
+  - apply invL_iff. split; [exact Hm|]. intros k v. rewrite Hg. unfold difference_law.
+    destruct (get k m1) as [x1|] eqn:E1; [|discriminate]. destruct (get k m2) as [x2|] eqn:E2.
+    + unfold diff_cb. cbv zeta. destruct (o_is_empty sub (o_difference sub x1 x2)) eqn:He; [discriminate|].
+      intros [= <-]. destruct (Hp1 k x1 E1) as (I1 & _). destruct (Hp2 k x2 E2) as (I2 & _).
+      split; [apply (s_difference x1 x2 I1 I2)|exact He].
+    + intros [= <-]. apply (Hp1 k x1 E1).
+  - intros y. rewrite (In_iter_lvl _ y Hm), (In_iter_lvl m1 y Hm1), (In_iter_lvl m2 y Hm2). split.
+    + intros (k & r & v & -> & Hgv & Hr). rewrite Hg in Hgv. unfold difference_law in Hgv.
+      destruct (get k m1) as [x1|] eqn:E1; [|discriminate]. destruct (get k m2) as [x2|] eqn:E2.
+      * unfold diff_cb in Hgv. cbv zeta in Hgv.
+        destruct (o_is_empty sub (o_difference sub x1 x2)) eqn:He; [discriminate|].
+        injection Hgv as <-. destruct (Hp1 k x1 E1) as (I1 & _). destruct (Hp2 k x2 E2) as (I2 & _).
+        apply (s_difference x1 x2 I1 I2) in Hr. destruct Hr as (Hr1 & Hr2).
+        split; [exists k, r, x1; auto|].
+        intros (k' & r' & w & [= <- <-] & Hgw & Hrw). rewrite E2 in Hgw. injection Hgw as <-. contradiction.
+      * injection Hgv as <-. split; [exists k, r, x1; auto|].
+        intros (k' & r' & w & [= <- <-] & Hgw & _). congruence.
+    + intros ((k & r & x1 & -> & E1 & Hr) & Hn). destruct (get k m2) as [x2|] eqn:E2.
+      * destruct (Hp1 k x1 E1) as (I1 & _). destruct (Hp2 k x2 E2) as (I2 & _).
+        destruct (s_difference x1 x2 I1 I2) as (Id & Md).
+        assert (Hrd : In r (tv (o_difference sub x1 x2))).
+        { apply Md. split; [exact Hr|]. intros Hr2. apply Hn. exists k, r, x2. auto. }
+        exists k, r, (o_difference sub x1 x2). split; [reflexivity|]. split; [|exact Hrd].
+        rewrite Hg, E1, E2. unfold difference_law, diff_cb. cbv zeta.
+        rewrite (s_nonempty_of_In _ r Id Hrd). reflexivity.
+      * exists k, r, x1. split; [reflexivity|]. split; [|exact Hr].
+        rewrite Hg, E1, E2. reflexivity.
+Qed.
+
+(* ---------- restriction methods ---------- *)
+
+Lemma lvl_insert_restriction m k r :
+  invL m -> invV r ->
+  exists m', insert_restriction_lvl sub m k r = Some m' /\ invL m' /\
+             forall y, In y (o_iter lvl m') <->
+                       In y (o_iter lvl m) \/ exists r0, y = k :: r0 /\ In r0 (tv r).
+Proof.
+  intros Hi Hr. pose proof Hi as Hi0. apply invL_iff in Hi. destruct Hi as (Hm & Hp).
+  unfold insert_restriction_lvl. destruct (o_is_empty sub r) eqn:He.
+  - exists m. split; [reflexivity|]. split; [exact Hi0|]. intros y. split; [auto|].
+    intros [H|(r0 & -> & H0)]; [exact H|].
+    apply (s_is_empty r Hr) in He. rewrite He in H0. destruct H0.
+  - destruct (get k m) as [v|] eqn:Hg.
+    + rewrite (entry_of_some k m v Hg). cbv beta iota zeta.
+      rewrite (occ_get_mut_some k m v Hg). cbv beta iota zeta.
+      rewrite (occ_get_mut_some k m v Hg). cbv beta iota zeta.
+      destruct (Hp k v Hg) as (Hvi & Hve). destruct (s_union v r Hvi Hr) as (Hui & Hum).
+      destruct (modify_set_get k v (o_union sub v r) m Hm Hg) as (Hm2 & Hget2).
+      eexists. split; [reflexivity|]. split.
+      { apply invL_iff. split; [exact Hm2|]. intros k' w. rewrite Hget2.
+        destruct (N.eqb_spec k' k) as [Heq|Hne]; [|apply Hp].
+        intros [= <-]. split; [exact Hui|].
+        apply (s_nonempty r Hr) in He. destruct (tv r) as [|r0 l] eqn:Er; [congruence|].
+        apply (s_nonempty_of_In _ r0 Hui). apply Hum. right. left; reflexivity. }
+      intros y. rewrite (In_iter_lvl _ y Hm2), (In_iter_lvl m y Hm). split.
+      * intros (k' & r0 & w & -> & Hgw & Hr0). rewrite Hget2 in Hgw.
+        destruct (N.eqb_spec k' k) as [Heq|Hne].
+        -- subst k'. injection Hgw as <-. apply Hum in Hr0. destruct Hr0 as [Hr0|Hr0].
+           ++ left. exists k, r0, v. auto.
+           ++ right. exists r0. auto.
+        -- left. exists k', r0, w. auto.
+      * intros [(k' & r0 & w & -> & Hgw & Hr0)|(r0 & -> & Hr0)].
+        -- destruct (N.eqb_spec k' k) as [Heq|Hne].
+           ++ subst k'. rewrite Hg in Hgw. injection Hgw as <-.
+              exists k, r0, (o_union sub v r). split; [reflexivity|].
+              split; [rewrite Hget2, N.eqb_refl; reflexivity|]. apply Hum. left; exact Hr0.
+           ++ exists k', r0, w. split; [reflexivity|]. split; [|exact Hr0].
+              rewrite Hget2. destruct (N.eqb_spec k' k); [contradiction|exact Hgw].
+        -- exists k, r0, (o_union sub v r). split; [reflexivity|].
+           split; [rewrite Hget2, N.eqb_refl; reflexivity|]. apply Hum. right; exact Hr0.
+    + rewrite (entry_of_none k m Hg). cbv beta iota zeta.
+      destruct (vac_insert_get k m r Hm) as (m1 & -> & Hm1 & Hg1). cbv beta iota zeta.
+      exists m1. split; [reflexivity|]. split.
+      { apply invL_iff. split; [exact Hm1|]. intros k' w. rewrite Hg1.
+        destruct (N.eqb_spec k' k) as [Heq|Hne]; [|apply Hp].
+        intros [= <-]. split; assumption. }
+      intros y. rewrite (In_iter_lvl _ y Hm1), (In_iter_lvl m y Hm). split.
+      * intros (k' & r0 & w & -> & Hgw & Hr0). rewrite Hg1 in Hgw.
+        destruct (N.eqb_spec k' k) as [Heq|Hne].
+        -- subst k'. injection Hgw as <-. right. exists r0. auto.
+        -- left. exists k', r0, w. auto.
+      * intros [(k' & r0 & w & -> & Hgw & Hr0)|(r0 & -> & Hr0)].
+        -- exists k', r0, w. split; [reflexivity|]. split; [|exact Hr0].
+           rewrite Hg1. destruct (N.eqb_spec k' k) as [Heq|Hne]; [subst k'; congruence|exact Hgw].
+        -- exists k, r0, r. split; [reflexivity|].
+           split; [rewrite Hg1, N.eqb_refl; reflexivity|exact Hr0].
+Qed.
+
+Lemma lvl_remove_restriction m k r :
+  invL m -> invV r ->
+  exists m', remove_restriction_lvl sub m k r = Some m' /\ invL m' /\
+             forall y, In y (o_iter lvl m') <->
+                       In y (o_iter lvl m) /\ ~ exists r0, y = k :: r0 /\ In r0 (tv r).
+Proof.
+  intros Hi Hr. pose proof Hi as Hi0. apply invL_iff in Hi. destruct Hi as (Hm & Hp).
+  unfold remove_restriction_lvl. destruct (get k m) as [v|] eqn:Hg.
+  - rewrite (entry_of_some k m v Hg). cbv beta iota zeta.
+    rewrite (occ_get_mut_some k m v Hg). cbv beta iota zeta.
+    rewrite (occ_get_mut_some k m v Hg). cbv beta iota zeta.
+    destruct (Hp k v Hg) as (Hvi & Hve). destruct (s_difference v r Hvi Hr) as (Hdi & Hdm).
+    destruct (modify_set_get k v (o_difference sub v r) m Hm Hg) as (Hm3 & Hget3).
+    assert (Hg3 : get k (modify k (fun _ => o_difference sub v r) m) = Some (o_difference sub v r))
+      by (rewrite Hget3, N.eqb_refl; reflexivity).
+    rewrite (occ_get_mut_some k _ _ Hg3). cbv beta iota zeta.
+    destruct (o_is_empty sub (o_difference sub v r)) eqn:He.
+    + destruct (occ_remove_get k _ _ Hm3 Hg3) as (m5 & -> & Hm5 & Hg5). cbv beta iota zeta.
+      assert (Hget5 : forall k', get k' m5 = if k' =? k then None else get k' m).
+      { intros k'. rewrite Hg5, Hget3. destruct (k' =? k); reflexivity. }
+      apply (s_is_empty _ Hdi) in He.
+      exists m5. split; [reflexivity|]. split.
+      { apply invL_iff. split; [exact Hm5|]. intros k' w. rewrite Hget5.
+        destruct (k' =? k); [discriminate|apply Hp]. }
+      intros y. rewrite (In_iter_lvl m5 y Hm5), (In_iter_lvl m y Hm). split.
+      * intros (k' & r0 & w & -> & Hgw & Hr0). rewrite Hget5 in Hgw.
+        destruct (N.eqb_spec k' k) as [Heq|Hne]; [discriminate|].
+        split; [exists k', r0, w; auto|]. intros (r1 & [= E _] & _). contradiction.
+      * intros ((k' & r0 & w & -> & Hgw & Hr0) & Hn). destruct (N.eqb_spec k' k) as [Heq|Hne].
+        -- exfalso. subst k'. rewrite Hg in Hgw. injection Hgw as <-.
+           assert (Hin : In r0 (tv (o_difference sub v r))).
+           { apply Hdm. split; [exact Hr0|]. intros Hr1. apply Hn. exists r0. auto. }
+           rewrite He in Hin. destruct Hin.
+        -- exists k', r0, w. split; [reflexivity|]. split; [|exact Hr0].
+           rewrite Hget5. destruct (N.eqb_spec k' k); [contradiction|exact Hgw].
+    + eexists. split; [reflexivity|]. split.
+      { apply invL_iff. split; [exact Hm3|]. intros k' w. rewrite Hget3.
+        destruct (N.eqb_spec k' k) as [Heq|Hne]; [|apply Hp].
+        intros [= <-]. split; assumption. }
+      intros y. rewrite (In_iter_lvl _ y Hm3), (In_iter_lvl m y Hm). split.
+      * intros (k' & r0 & w & -> & Hgw & Hr0). rewrite Hget3 in Hgw.
+        destruct (N.eqb_spec k' k) as [Heq|Hne].
+        -- subst k'. injection Hgw as <-. apply Hdm in Hr0. destruct Hr0 as (Hr0 & Hr1).
+           split; [exists k, r0, v; auto|]. intros (r1 & [= <-] & Hr2). contradiction.
+        -- split; [exists k', r0, w; auto|]. intros (r1 & [= E _] & _). contradiction.
+      * intros ((k' & r0 & w & -> & Hgw & Hr0) & Hn). destruct (N.eqb_spec k' k) as [Heq|Hne].
+        -- subst k'. rewrite Hg in Hgw. injection Hgw as <-.
+           exists k, r0, (o_difference sub v r). split; [reflexivity|]. split; [exact Hg3|].
+           apply Hdm. split; [exact Hr0|]. intros Hr1. apply Hn. exists r0. auto.
+        -- exists k', r0, w. split; [reflexivity|]. split; [|exact Hr0].
+           rewrite Hget3. destruct (N.eqb_spec k' k); [contradiction|exact Hgw].
+  - rewrite (entry_of_none k m Hg). exists m. split; [reflexivity|]. split; [exact Hi0|].
+    intros y. split; [|tauto]. intros Hy. split; [exact Hy|]. intros (r0 & -> & _).
+    apply (In_iter_lvl m _ Hm) in Hy. destruct Hy as (k' & r' & w & [= <- <-] & Hgw & _). congruence.
+Qed.
+
+Lemma lvl_get_some m k v :
+  invL m -> get_lvl m k = Some v ->
+  invV v /\ o_is_empty sub v = false /\ forall r0, In r0 (tv v) <-> In (k :: r0) (o_iter lvl m).
+Proof.
+  intros Hi Hg. apply invL_iff in Hi. destruct Hi as (Hm & Hp). unfold get_lvl in Hg.
+  destruct (Hp k v Hg) as (Hv & He). split; [exact Hv|]. split; [exact He|].
+  intros r0. rewrite (In_iter_lvl m _ Hm). split.
+  - intros H. exists k, r0, v. auto.
+  - intros (k' & r' & w & [= <- <-] & Hgw & Hr). rewrite Hg in Hgw. injection Hgw as <-. exact Hr.
+Qed.
+
+Lemma lvl_get_none m k :
+  invL m -> get_lvl m k = None -> forall r0, ~ In (k :: r0) (o_iter lvl m).
+Proof.
+  intros Hi Hg r0 Hin. apply invL_iff in Hi. destruct Hi as (Hm & Hp). unfold get_lvl in Hg.
+  apply (In_iter_lvl m _ Hm) in Hin. destruct Hin as (k' & r' & w & [= <- <-] & Hgw & _). congruence.
+Qed.
+
+Lemma lvl_iter_restrictions m :
+  invL m ->
+  o_iter lvl m = flat_map (fun kr => prefix (fst kr) (tv (snd kr))) (iter_restrictions_lvl m) /\
+  StronglySorted N.lt (map fst (iter_restrictions_lvl m)) /\
+  forall k v, In (k, v) (iter_restrictions_lvl m) <-> get_lvl m k = Some v.
+Proof.
+  intros Hi. apply invL_iff in Hi. destruct Hi as (Hm & Hp).
+  split; [reflexivity|]. split; [apply iter_sorted, Hm|].
+  intros k v. apply In_iter_get, Hm.
+Qed.
+
+(* ---------- mapped ---------- *)
+
+Lemma Forall_tl {A} (P : A -> Prop) l : Forall P l -> Forall P (tl l).
+Proof. intros H. destruct l; [constructor|]. inversion H; assumption. Qed.
+
+Lemma mapped_step_spec maps res k v :
+  Forall map_ok maps -> invV v -> invL res ->
+  exists res', mapped_step sub (hd None maps) (tl maps) (Some res) (k, v) = Some res' /\ invL res' /\
+    forall y, In y (o_iter lvl res') <->
+              In y (o_iter lvl res) \/ exists r, In r (tv v) /\ map_tuple maps (k :: r) = Some y.
+Proof.
+  intros Hmaps Hv Hres. unfold mapped_step. cbn [fst snd].
+  change (match hd None maps with
+          | None => Some k
+          | Some mp => match get k mp with None => None | Some restriction => ws_first restriction end
+          end) with (map_col (hd None maps) k).
+  destruct (map_col (hd None maps) k) as [new_k|] eqn:Hc.
+  - destruct (s_mapped v (tl maps) Hv (Forall_tl _ _ Hmaps)) as (new_v & -> & Hnvi & Hnvm).
+    destruct (lvl_insert_restriction res new_k new_v Hres Hnvi) as (res' & -> & Hi' & Hm').
+    exists res'. split; [reflexivity|]. split; [exact Hi'|].
+    intros y. rewrite Hm'. split.
+    + intros [H|(r0 & -> & Hr0)]; [left; exact H|]. right. apply Hnvm in Hr0.
+      destruct Hr0 as (r & Hr & Hmr). exists r. split; [exact Hr|].
+      cbn [map_tuple]. rewrite Hc, Hmr. reflexivity.
+    + intros [H|(r & Hr & Hmr)]; [left; exact H|]. right.
+      cbn [map_tuple] in Hmr. rewrite Hc in Hmr.
+      destruct (map_tuple (tl maps) r) as [r0|] eqn:Hr0; [|discriminate]. injection Hmr as <-.
+      exists r0. split; [reflexivity|]. apply Hnvm. exists r. auto.
+  - exists res. split; [reflexivity|]. split; [exact Hres|].
+    intros y. split; [auto|]. intros [H|(r & Hr & Hmr)]; [exact H|].
+    cbn [map_tuple] in Hmr. rewrite Hc in Hmr. discriminate.
+Qed.
+
+Lemma mapped_fold maps (l : list (N * V)) res :
+  Forall map_ok maps -> (forall k v, In (k, v) l -> invV v) -> invL res ->
+  exists res', fold_left (mapped_step sub (hd None maps) (tl maps)) l (Some res) = Some res' /\
+    invL res' /\
+    forall y, In y (o_iter lvl res') <->
+              In y (o_iter lvl res) \/
+              exists k v r, In (k, v) l /\ In r (tv v) /\ map_tuple maps (k :: r) = Some y.
+Proof.
+  intros Hmaps. revert res. induction l as [|[k v] l IH]; intros res Hl Hres; cbn [fold_left].
+  - exists res. split; [reflexivity|]. split; [exact Hres|]. intros y. split; [auto|].
+    intros [H|(k & v & r & [] & _)]. exact H.
+  - destruct (mapped_step_spec maps res k v Hmaps (Hl k v (or_introl eq_refl)) Hres)
+      as (res1 & -> & Hres1 & Hm1).
+    destruct (IH res1 (fun k' v' H => Hl k' v' (or_intror H)) Hres1) as (res' & Hf & Hres' & Hm').
+    exists res'. split; [exact Hf|]. split; [exact Hres'|].
+    intros y. rewrite Hm', Hm1. split.
+    + intros [[H|(r & Hr & Hmr)]|(k' & v' & r & Hin & Hr & Hmr)].
+      * left; exact H.
+      * right. exists k, v, r. split; [left; reflexivity|]. auto.
+      * right. exists k', v', r. split; [right; exact Hin|]. auto.
+    + intros [H|(k' & v' & r & [[= <- <-]|Hin] & Hr & Hmr)].
+      * left; left; exact H.
+      * left; right. exists r. auto.
+      * right. exists k', v', r. auto.
+Qed.
+
+Lemma lvl_mapped m maps :
+  invL m -> Forall map_ok maps ->
+  exists m', o_mapped lvl m maps = Some m' /\ invL m' /\
+             forall y, In y (o_iter lvl m') <->
+                       exists x, In x (o_iter lvl m) /\ map_tuple maps x = Some y.
+Proof.
+  intros Hi Hmaps. apply invL_iff in Hi. destruct Hi as (Hm & Hp).
+  cbn [ops_lvl o_mapped].
+  destruct (mapped_fold maps (iter m) empty Hmaps) as (m' & Hf & Hi' & Hm').
+  { intros k v Hin. apply (In_iter_get m k v Hm) in Hin. apply (Hp k v Hin). }
+  { apply lvl_new_inv. }
+  exists m'. split; [exact Hf|]. split; [exact Hi'|].
+  intros y. rewrite Hm'. split.
+  - intros [H|(k & v & r & Hin & Hr & Hmr)]; [destruct H|].
+    exists (k :: r). split; [|exact Hmr]. apply (In_iter_lvl m _ Hm).
+    exists k, r, v. split; [reflexivity|]. split; [apply In_iter_get; assumption|exact Hr].
+  - intros (x & Hx & Hmx). right. apply (In_iter_lvl m _ Hm) in Hx.
+    destruct Hx as (k & r & v & -> & Hg & Hr). exists k, v, r.
+    split; [apply In_iter_get; assumption|]. auto.
+Qed.
+
+(* ---------- the level theorem ---------- *)
+
+Theorem lvl_laws : laws (S a) lvl invL.
+Proof.
+  constructor.
+  - exact lvl_len.
+  - exact lvl_sorted.
+  - exact lvl_new_inv.
+  - reflexivity.
+  - exact lvl_is_empty.
+  - exact lvl_contains.
+  - exact lvl_insert.
+  - exact lvl_remove.
+  - exact lvl_clear.
+  - exact lvl_union.
+  - exact lvl_difference.
+  - exact lvl_mapped.
 Qed.
 
 End LevelFacts.
